@@ -1,10 +1,13 @@
 """C28 A run survives engine reconnects and aggregator restarts.
 
-Proof half: OPM.Properties.C28 — over all histories of {register, disconnect, graceful aggregator restart,
-RunStarted, RunStopped, TagsUpdated}: the run associated with the engine (in memory, or in its RecentEngines row) is
+Proof half: OPM.Properties.C28 — over all histories of {register, disconnect, graceful aggregator restart, crash of
+the aggregator process, RunStarted, RunStopped, TagsUpdated}: the run associated with the engine (in memory, or in its RecentEngines row) is
 invariant under everything that does not end it; re-registration resumes it; the first tags message after a
 reconnect — and every later one that passes the persistence threshold — is recorded on a PlotLogs row of that run id
 and nothing is ever recorded elsewhere; the run has no RecentRuns row before its stop and exactly one ever after.
+With crashes (`C28_full`) this holds of the code that writes the RecentEngines row with the run messages
+(fixes/C28-persist-active-run.diff) and is refuted (`C28_counterexample`) for the code that writes it on disconnect and
+shutdown only; without crashes (`C28_partial`) it holds of both.  Which code it is, is measured by a probe.
 
 Tie half: correspondence of the model with the real `AggregatorMessageHandlers` / `FromEngine` /
 `Aggregator.shutdown` / repositories on an in-memory SQLite database that survives the restarts: all histories up
@@ -22,14 +25,17 @@ from vp.core import Check, Failure, load_corpus
 
 META = dict(
     level_text="Lean 4 theorems by induction over all histories of registration, disconnect, graceful aggregator "
-               "restart, RunStarted, RunStopped and TagsUpdated messages: the run id associated with the engine is "
+               "restart, crash of the aggregator process, RunStarted, RunStopped and TagsUpdated messages (tag messages "
+               "with any log interval and any lagging/leading System State): the run id associated with the engine is "
                "invariant until the run is stopped and is resumed by re-registration; tag data of the run after a "
                "reconnect is recorded on a plot log of that run id and on no other; the run gets its RecentRuns row "
                "exactly at its stop and never a second one. Model tied to the real handlers/repositories by "
                "differential execution over exhaustive short and generated long histories on in-memory SQLite.",
-    level_note="One engine id; restart = Aggregator.shutdown() then a new Aggregator on the same database (a crash "
-               "without shutdown is outside the property's quantifier); registration = RegisterEngineMsg + UodInfoMsg "
-               "(one reading, log interval 0); a tags message carries one value. SQLAlchemy/SQLite are modelled as "
+    level_note="The model is one engine's view (messages of a second engine are interleaved by the harness and must be "
+               "no-ops); restart = Aggregator.shutdown() then a new Aggregator on the same database, crash = a new "
+               "Aggregator on the same database without shutdown; registration = RegisterEngineMsg + UodInfoMsg (one "
+               "reading, log interval 0/2/5); a tags message carries one value of the reading and optionally the System "
+               "State tag. SQLAlchemy/SQLite are modelled as "
                "row lists (validated differentially). Trusted: Lean kernel, the harness.",
     technique="Lean 4 proof (invariants + induction over operation lists) + differential correspondence",
 )
@@ -37,8 +43,9 @@ MODULE = "OPM.Properties.C28"
 REQUIRED = ["OPM.C28.run_id_survives", "OPM.C28.same_run_whenever_registered", "OPM.C28.reregistration_resumes_run",
             "OPM.C28.first_tags_after_reconnect_recorded", "OPM.C28.tags_recorded_in_run_plot_log",
             "OPM.C28.value_rows_only_for_current_run", "OPM.C28.plot_log_rows_are_stable",
-            "OPM.C28.run_stored_exactly_once"]
-CONNECTIVITY = ("register", "disconnect", "restart")
+            "OPM.C28.run_stored_exactly_once", "OPM.C28.C28_full_holds", "OPM.C28.C28_counterexample",
+            "OPM.C28.C28_partial"]
+CONNECTIVITY = ("register", "disconnect", "restart", "crash")
 
 
 # ------------------------------------------------------------------------------------------------
@@ -69,6 +76,9 @@ def engine_history(rng, n_runs: int) -> tuple[list[list], dict]:
 
     def send(op):
         nonlocal registered
+        if rng.random() < 0.12:              # the other engine does something in between
+            ops.append(rng.choice([["o-register"], ["o-start", 7], ["o-tags", 7, t], ["o-stop", 7], ["o-disconnect"],
+                                   ["o-tags", None, t]]))
         if registered:
             ops.append(op)
         else:
@@ -80,7 +90,8 @@ def engine_history(rng, n_runs: int) -> tuple[list[list], dict]:
         nonlocal registered
         x = rng.random()
         if x < p:
-            kind = rng.choice(["disconnect", "restart", "disconnect+restart", "restart+restart"])
+            kind = rng.choice(["disconnect", "restart", "crash", "disconnect+restart", "restart+restart",
+                               "disconnect+crash", "crash+restart"])
             for k in kind.split("+"):
                 ops.append([k])
             registered = False
@@ -129,8 +140,11 @@ def engine_history(rng, n_runs: int) -> tuple[list[list], dict]:
 def random_history(rng) -> list[list]:
     ops = []
     for _ in range(rng.randrange(4, 16)):
-        k = rng.choice(["register", "disconnect", "restart", "start", "stop", "tags", "tags"])
-        if k in ("start", "stop"):
+        k = rng.choice(["register", "disconnect", "restart", "crash", "start", "stop", "tags", "tags", "other"])
+        if k == "other":
+            ops.append(rng.choice([["o-register"], ["o-start", rng.choice([1, 7])], ["o-tags", 7, rng.randrange(0, 12)],
+                                   ["o-stop", 7], ["o-disconnect"]]))
+        elif k in ("start", "stop"):
             ops.append([k, rng.choice([1, 1, 2, 3])])
         elif k == "tags":
             ops.append(["tags", rng.choice([1, 1, 2, None]), rng.randrange(0, 12), rng.choice([None, None, 0, 1, 2])])
@@ -157,15 +171,28 @@ def oracle(case: dict, trace: list[tuple[list, str, dict]]) -> list[Failure]:
     last_run = None          # run of the engine data at the last moment it was registered
     delivered_run = None     # protocol histories: run per accepted start/stop
     finished: list[str] = []
+    interval = case.get("interval", 0)
+    last_row_t = None        # tick time of the last row recorded since the engine data / the run data was created
+    gone_by = None           # the operation that took the engine data away last
     for (op, reply, f) in trace:
         kind = op[0]
+        if kind.startswith("o-"):            # the other engine: must not touch anything of ours
+            for k in ("registered", "run", "values", "logs", "recent"):
+                if f[k] != prev[k]:
+                    fails.append(Failure("message-of-another-engine-changed-this-engine", case,
+                                         f"{op}: {k} {prev[k]} -> {f[k]}"))
+            prev = f
+            continue
         # (1) continuity
         if kind in CONNECTIVITY or kind == "tags":
             if prev["registered"] and f["registered"] and f["run"] != prev["run"]:
                 fails.append(Failure("run-id-changed-without-run-message", case,
                                      f"{op}: run {prev['run']} -> {f['run']} while registered"))
+            if prev["registered"] and not f["registered"]:
+                gone_by = kind
             if not prev["registered"] and f["registered"] and f["run"] != last_run:
-                fails.append(Failure("run-not-resumed-after-reconnect", case,
+                fails.append(Failure("run-not-resumed-after-aggregator-crash" if gone_by == "crash"
+                                     else "run-not-resumed-after-reconnect", case,
                                      f"{op}: engine was in run {last_run} when last registered, re-registered with "
                                      f"run {f['run']}"))
         # (2) value rows
@@ -181,9 +208,19 @@ def oracle(case: dict, trace: list[tuple[list, str, dict]]) -> list[Failure]:
                 if owner != prev["run"] or prev["run"] is None:
                     fails.append(Failure("tag-row-in-plot-log-of-another-run", case,
                                          f"{op}: row on plot log of {owner} while the engine was in run {prev['run']}"))
-        if case.get("protocol") and kind == "tags" and reply == "ok" and op[1] is not None and not new_rows:
+        if not prev["registered"] and f["registered"]:
+            last_row_t = None                # fresh engine data: nothing persisted yet
+        if kind == "start" and reply == "ok" and f["run"] != prev["run"]:
+            last_row_t = None                # fresh run data
+        if new_rows:
+            last_row_t = new_rows[-1][1]
+        # protocol histories (increasing tick times): the first accepted tags message of the run after a
+        # (re-)registration, and every one more than the engine's log interval after the last recorded row, is recorded
+        if case.get("protocol") and kind == "tags" and reply == "ok" and op[1] is not None and not new_rows \
+                and (last_row_t is None or op[2] > last_row_t + interval):
             fails.append(Failure("tag-data-after-reconnect-not-recorded", case,
-                                 f"{op}: accepted tags message of run {rid(op[1])} left no PlotLogEntryValues row"))
+                                 f"{op}: accepted tags message of run {rid(op[1])} left no PlotLogEntryValues row "
+                                 f"(last recorded row at {last_row_t}, log interval {interval})"))
         if f["logs"][:len(prev["logs"])] != prev["logs"]:
             fails.append(Failure("plot-log-rows-rewritten", case, f"{op}: PlotLogs rows changed"))
         # (3) stored once
@@ -217,17 +254,19 @@ def oracle(case: dict, trace: list[tuple[list, str, dict]]) -> list[Failure]:
 # ------------------------------------------------------------------------------------------------
 
 def run(ctx: Check) -> int:
-    from harness.reconnect import ReconnHarness, op_line, probe_guarded
+    from harness.reconnect import ReconnHarness, op_line, probe_guarded, probe_persist
     ctx.prove(MODULE, REQUIRED)
     plot_g, recent_g = probe_guarded()
-    ctx.extra["repository_variant"] = {"create_plot_log_skips_existing_run": plot_g,
-                                       "store_recent_run_skips_existing_run": recent_g}
+    persist = probe_persist()
+    ctx.extra["code_variant"] = {"create_plot_log_skips_existing_run": plot_g,
+                                 "store_recent_run_skips_existing_run": recent_g,
+                                 "recent_engine_row_written_with_run_messages": persist}
     rng = ctx.rng
 
-    six = [["register"], ["disconnect"], ["restart"], ["start", 1], ["stop", 1], ["tags", 1]]
+    six = [["register"], ["disconnect"], ["restart"], ["crash"], ["start", 1], ["stop", 1], ["tags", 1]]
     # tags that also report System State: Stopped (quick and thorough), Running (thorough)
     eight = six + ([["tags", 1, 0], ["tags", 1, 1]] if ctx.tier == "thorough" else [["tags", 1, 0]])
-    nine = [["register"], ["disconnect"], ["restart"], ["start", 1], ["start", 2], ["stop", 1], ["stop", 2],
+    nine = [["register"], ["disconnect"], ["restart"], ["crash"], ["start", 1], ["start", 2], ["stop", 1], ["stop", 2],
             ["tags", 1], ["tags", None, 0]]
     cases: list[dict] = [c for c in load_corpus("C28") if "ops" in c]
     n_corpus = len(cases)
@@ -243,18 +282,25 @@ def run(ctx: Check) -> int:
         cases.append({"ops": ops, **info})
     for _ in range(ctx.n(60, 2500)):
         cases.append({"ops": random_history(rng)})
+    # the engine's name (engine id), its log interval and its clock vary from case to case
+    for k, c in enumerate(cases):
+        if "name" not in c:
+            c["name"] = k % 3
+            c["interval"] = [0, 0, 2, 5][(k // 3) % 4] if (c.get("protocol") or k % 2) else 0
+            c["epoch"] = 1_700_000_000 if k % 5 == 0 else 0
     ctx.extra["histories"] = {"corpus": n_corpus, "exhaustive": n_exh,
                               "engine_protocol_with_reconnects": sum(1 for c in cases if c.get("protocol")),
                               "random_malformed": ctx.n(60, 2500)}
-    ctx.rule = ("histories over {register(+uod info), disconnect, graceful restart, start r, stop r, tags(run|none, t, "
-                "optional System State Stopped/Running/Paused)}: all histories of length 3/5 after a registration (6 "
-                "events), of length 3/4 after `register, start 1` (7/8 events: tags without state, reporting Stopped, "
+    ctx.rule = ("histories over {register(+uod info), disconnect, graceful restart, crash, start r, stop r, tags(run|none, t, "
+                "optional System State Stopped/Running/Paused)}: all histories of length 3/5 after a registration (7 "
+                "events), of length 3/4 after `register, start 1` (8/9 events: tags without state, reporting Stopped, "
                 "thorough also reporting Running), all of length 2/3 from the empty aggregator, all of length 2/4 over two run ids "
                 "after `register, start 1`; engine-protocol histories where the reported System State lags (still "
                 "Stopped after RunStarted) or leads (Stopped before RunStopped) the run messages; engine-protocol histories "
                 "(1-3 runs, increasing tick times, refused messages re-sent after re-registration, duplicate "
                 "RunStarted) with disconnect / restart / both at every point; random histories with stale ids, "
-                "decreasing times, messages to an unregistered engine. Non-trivial = the engine is registered again "
+                "decreasing times, messages to an unregistered engine. Engine name (3 ids), log interval (0/2/5), clock epoch "
+                "and interleaved messages of a second engine vary over the cases. Non-trivial = the engine is registered again "
                 "after a disconnect or restart that happened during a run.")
 
     h = ReconnHarness()
@@ -262,6 +308,7 @@ def run(ctx: Check) -> int:
 
     def impl(c):
         h.wipe()
+        h.configure(c.get("name", 0), c.get("interval", 0), c.get("epoch", 0))
         out = ["cfg"]
         tr = []
         for op in c["ops"]:
@@ -273,7 +320,7 @@ def run(ctx: Check) -> int:
         return out
 
     def lines(c, mutant=False):
-        ls = [f"cfg\t{int(plot_g)}\t{int(recent_g)}"]
+        ls = [f"cfg\t{int(plot_g)}\t{int(recent_g)}\t{int(persist)}\t{c.get('interval', 0)}"]
         for op in c["ops"]:
             ls.append("restartm" if mutant and op[0] == "restart" else op_line(op))
         return ls
@@ -293,6 +340,8 @@ def run(ctx: Check) -> int:
         ctx.selftest("reconnect-histories", "Reconnect", cases, lambda c: lines(c, mutant=True), model_out)
     for c, out in zip(cases, impl_out):
         ctx.count("resumed-run" if resumed(c, out) else "no-resume")
+        ctx.count(f"interval={c.get('interval', 0)}")
+        ctx.count(f"engine-name={c.get('name', 0)}")
         for op in c["ops"]:
             ctx.count("op=" + op[0])
         ctx.count("len=" + ("<=5" if len(c["ops"]) <= 5 else "6-12" if len(c["ops"]) <= 12 else ">12"))
@@ -303,8 +352,10 @@ def run(ctx: Check) -> int:
         for f in oracle(c, traces.get(id(c), []))[:1]:
             ctx.fail(f)
     ctx.exhaustive = True
-    ctx.assumptions = ["aggregator restart is graceful: Aggregator.shutdown() runs before the process ends",
-                       "one engine id; registration is the accepted path and is followed by the engine's UodInfoMsg",
+    ctx.assumptions = ["restart = Aggregator.shutdown() then a new process; crash = a new process without shutdown; both on "
+                       "the same database",
+                       "one observed engine (three names), a second engine as noise; registration is the accepted path "
+                       "and is followed by the engine's UodInfoMsg (log interval 0, 2 or 5)",
                        "database writes succeed (in-memory SQLite); SQLAlchemy is modelled as row lists",
                        "exhaustive up to the stated lengths; longer histories are sampled"]
     return ctx.finish()
@@ -314,6 +365,7 @@ def replay(obj) -> int:
     from harness.reconnect import ReconnHarness
     case = obj.get("case", obj)
     h = ReconnHarness()
+    h.configure(case.get("name", 0), case.get("interval", 0), case.get("epoch", 0))
     tr = []
     for op in case["ops"]:
         rep = h.apply(op)
